@@ -3,6 +3,8 @@ package main
 import (
 	"fmt"
 	"runtime"
+
+	"github.com/clbanning/mxj/v2/verifsim"
 )
 
 // The cooperative scheduler (DESIGN.md §2.3): tasks are real goroutines,
@@ -126,6 +128,7 @@ type sched struct {
 	oldBlocked     func()
 	spawned        int
 	calls          int
+	ownsRace       bool
 }
 
 func newSched(c *Ctx, pol *schedPolicy) *sched {
@@ -248,6 +251,9 @@ func (s *sched) spawn(body func()) {
 	s.spawned++
 	s.c.C["goroutines_started_by_package"]++
 	s.c.Event("go task=%d", t.id)
+	if r := verifsim.Race; r != nil {
+		r.Fork(t.id)
+	}
 	s.start(t)
 }
 
@@ -296,6 +302,14 @@ func newAmbient(c *Ctx) *sched {
 	}
 	c.blockedFn = s.blocked
 	c.Event("ambient scheduler %s", pol.String())
+	if verifsim.Race == nil {
+		armRace(func(msg string) {
+			if c.raceMsg == "" {
+				c.raceMsg = msg
+			}
+		})
+		s.ownsRace = verifsim.Race != nil
+	}
 	return s
 }
 
@@ -350,6 +364,9 @@ func (s *sched) killAll() {
 	s.c.yieldFn, s.c.blockedFn = s.oldYield, s.oldBlocked
 	s.c.C["context_switches_among_package_goroutines"] += int64(s.switches)
 	s.c.amb = nil
+	if s.ownsRace {
+		disarmRace(s.c)
+	}
 }
 
 // handoff gives the turn to the next live task after t in cyclic order and waits to get it back.
